@@ -285,11 +285,11 @@ def run(sh):
         sh.run_case(case, nontrivial=differs and len(R.fields_of(case["tree"])) >= 2,
                     labels=labels, raise_unattributed=True)
 
-    sh.given(equiv_case("L1"), body, sh.budget(6000, 100000), tag="l1")
-    sh.given(equiv_case("L2"), body, sh.budget(200, 3000), tag="l2")
+    sh.given(equiv_case("L1"), body, sh.budget(6000, 400000), tag="l1")
+    sh.given(equiv_case("L2"), body, sh.budget(200, 12000), tag="l2")
 
     def bodym(case):
         sh.run_case(case, nontrivial=True, labels=("malformed_" + case["kind"],),
                     raise_unattributed=True)
 
-    sh.given(malformed_case(), bodym, sh.budget(400, 4000), tag="mal")
+    sh.given(malformed_case(), bodym, sh.budget(400, 16000), tag="mal")
